@@ -23,6 +23,14 @@ var slotBits = [nSlots]uint8{0, 1, 7, 13, 27, 28}
 
 const topBits = int32(0x20000000)
 
+func slotBitsInt() []int {
+	var o []int
+	for _, b := range slotBits {
+		o = append(o, int(b))
+	}
+	return o
+}
+
 func allMask() int32 {
 	var m int32
 	for _, b := range slotBits {
@@ -175,9 +183,9 @@ func (t *Tree) ancestorAt(i int, height int32) int {
 }
 
 func (t *Tree) view(defs Defs, thr uint32, tip int) *blockchain.BlockChain {
-	if tip < 1 {
-		tip = 1
-	}
+	// tip 0 = no best chain tip at all (cheap: btcd's chain view allocates a
+	// large node slice as soon as it has a tip); only the exported tip API
+	// needs one, and that is positioned with VerifC14SetTip.
 	return t.base.VerifC14NewView(makeParams(defs, thr, t.genesisTime), t.nodes[tip])
 }
 
@@ -201,7 +209,7 @@ type Case struct {
 	Window      int      `json:"window"`
 	Threshold   uint32   `json:"threshold"`
 	GenesisTime int64    `json:"genesis_time"`
-	SlotBits    []uint8  `json:"slot_bits"`
+	SlotBits    []int    `json:"slot_bits"`
 	Defs        Defs     `json:"defs"`
 	Blocks      []BlkJ   `json:"blocks"`
 	Queries     []QueryJ `json:"queries"`
@@ -222,7 +230,7 @@ func runCase(c *Case) (out []mismatch) {
 	for _, b := range c.Blocks {
 		t.add(idx(b.Parent), b.Version, b.Time, b.Nonce)
 	}
-	v := t.view(c.Defs, c.Threshold, 1)
+	v := t.view(c.Defs, c.Threshold, 0)
 	net := refbip9.Net{Window: W, Threshold: c.Threshold}
 	var rdefs []refbip9.Def
 	for s := 0; s < nSlots; s++ {
@@ -286,7 +294,7 @@ func runCase(c *Case) (out []mismatch) {
 // caseFromPath builds the minimal linear case: the history up to node n and
 // one query there.
 func (t *Tree) caseFromPath(sub string, defs Defs, thr uint32, n int, op string, slot int) *Case {
-	c := &Case{Sub: sub, Window: W, Threshold: thr, GenesisTime: t.genesisTime, SlotBits: slotBits[:], Defs: defs}
+	c := &Case{Sub: sub, Window: W, Threshold: thr, GenesisTime: t.genesisTime, SlotBits: slotBitsInt(), Defs: defs}
 	var chain []int
 	for j := n; j > 1; j = int(t.parent[j]) {
 		chain = append([]int{j}, chain...)
